@@ -415,6 +415,31 @@ mod market_agents {
             if CNT == 1 { let r = LOG[0].unwrap(); assert!(r.bid == up && r.vol == 10 && r.trader == 5 && r.price.is_none()); }
         }
     }
+    /// C17 (bounded): the multi-asset agent carries M over by the documented recursion: with decay 1/2 a pull-back that leaves M > 0 still BUYS
+    #[kani::proof]
+    #[kani::unwind(12)]
+    #[kani::stub(f64::tanh, tanh_model)]
+    #[kani::stub(bourse_de::MarketEnv::place_order, mplace_stub)]
+    #[kani::stub(bourse_book::OrderBook::mid_price, mid_stub)]
+    #[kani::stub(bourse_de::agents::common::place_buy_limit_order_market, mbuy_stub)]
+    #[kani::stub(bourse_de::agents::common::place_sell_limit_order_market, msell_stub)]
+    #[kani::stub(bourse_de::agents::common::cancel_live_orders_market, mcancel_live_stub)]
+    fn momentum_market_carried_over() {
+        let mut env: MarketEnv<1, 2> = MarketEnv::new(0, [1], 1000, true);
+        let mut rng = SymRng;
+        let mut a = magent(0.0, 0.5);
+        let up: bool = kani::any();
+        unsafe { MID = 2000.0; CNT = 0; }
+        a.update(&mut env, &mut rng);
+        unsafe { MID = if up { 2032.0 } else { 1968.0 }; }
+        a.update(&mut env, &mut rng);                       // M = +-16
+        unsafe { assert!(CNT == 1); CNT = 0; MID = if up { 2028.0 } else { 1972.0 }; }
+        a.update(&mut env, &mut rng);                       // price moves 4 against the trend: M = +-8 -+ 2 = +-6, same sign, saturated
+        unsafe {
+            assert!(CNT == 1);
+            if CNT == 1 { let r = LOG[0].unwrap(); assert!(r.bid == up && r.price.is_none()); }
+        }
+    }
     /// C16 (bounded): NoiseMarketAgent activity follows the documented probabilities, configured volume, own trader id, own asset
     #[kani::proof]
     #[kani::unwind(12)]
